@@ -250,6 +250,52 @@ func (r *Runner) txCases(s txgen.TxSpec, only int, kind string) {
 		}
 	}
 	emit(calls, "out-of-range", false)
+
+	// history: the same *bt.Tx object is edited in place after digests were computed on it (outpoints,
+	// sequence, outputs, locktime, version); every digest must then be that of the edited transaction —
+	// hidden state left behind by an earlier computation (caches) would show here.
+	if len(s.Ins) > 0 && only < 0 {
+		s2 := cloneSpec(s)
+		j := len(s2.Ins) - 1
+		tx.Inputs[j].PreviousTxOutIndex ^= 1
+		s2.Ins[j].Vout ^= 1
+		newID := make([]byte, 32)
+		for i := range newID {
+			newID[i] = byte(0xc0 + i)
+		}
+		_ = tx.Inputs[0].PreviousTxIDAdd(newID)
+		s2.Ins[0].Txid = common.Hex(newID)
+		tx.Inputs[0].SequenceNumber ^= 0x10
+		s2.Ins[0].Seq ^= 0x10
+		if len(s2.Outs) > 0 {
+			tx.Outputs[0].Satoshis ^= 3
+			s2.Outs[0].Sats ^= 3
+		}
+		tx.LockTime ^= 5
+		s2.Lock ^= 5
+		tx.Version ^= 2
+		s2.Version ^= 2
+		s = s2
+		var hcalls []call
+		okc := 0
+		for i := range s2.Ins {
+			for _, ht := range []uint8{fam[1], fam[2], fam[3], fam[65], fam[67], fam[6]} {
+				k := r.one(s2, tx, uint32(i), ht)
+				if k.PreCls == ClsOK {
+					okc++
+				}
+				hcalls = append(hcalls, k)
+			}
+		}
+		emit(hcalls, "after-in-place-edits", okc > 0)
+	}
+}
+
+func cloneSpec(s txgen.TxSpec) txgen.TxSpec {
+	o := s
+	o.Ins = append([]txgen.InSpec{}, s.Ins...)
+	o.Outs = append([]txgen.OutSpec{}, s.Outs...)
+	return o
 }
 
 func script(r *common.Rand, thorough bool) string {
